@@ -46,11 +46,16 @@ func runC02(c *Ctx) {
 	checkKeyGenerators(c)
 }
 
+func isNamedType(t types.Type) bool {
+	_, ok := t.(*types.Named)
+	return ok
+}
+
 func allocsOf(fn *ssa.Function, typeSuffix string) []*ssa.Alloc {
 	var out []*ssa.Alloc
 	for _, b := range fn.Blocks {
 		for _, ins := range b.Instrs {
-			if a, ok := ins.(*ssa.Alloc); ok && strings.HasSuffix(a.Type().(*types.Pointer).Elem().String(), typeSuffix) {
+			if a, ok := ins.(*ssa.Alloc); ok && strings.HasSuffix(a.Type().(*types.Pointer).Elem().String(), typeSuffix) && isNamedType(a.Type().(*types.Pointer).Elem()) {
 				out = append(out, a)
 			}
 		}
@@ -79,15 +84,15 @@ func checkGenerate(c *Ctx, m *gensignModel, h *types.Named, gen *ssa.Function) {
 	w := c.w
 	hn := shortFn(gen)
 	f := w.Facts(gen)
-	kids := allocsOf(gen, "keyid.KeyID")
-	reqs := allocsOf(gen, "proto.SSHCertificateSigningRequest")
+	kids := w.allocsOfDeep(gen, "keyid.KeyID")
+	reqs := w.allocsOfDeep(gen, "proto.SSHCertificateSigningRequest")
 	if len(kids) != 1 || len(reqs) != 1 {
 		c.Und("R1.csr", hn+"|one KeyID and one signing request literal", w.FnPos(gen), "expected exactly one KeyID literal and one signing-request literal, found "+itoa(len(kids))+" / "+itoa(len(reqs)))
 		return
 	}
 	kid, req := kids[0], reqs[0]
-	kf := FieldStores(gen, kid)
-	rf := FieldStores(gen, req)
+	kf := w.FieldStoresDeep(gen, kid)
+	rf := w.FieldStoresDeep(gen, req)
 
 	// ---- R2: KeyID ----
 	wantK := map[string]string{
@@ -174,7 +179,7 @@ func checkGenerate(c *Ctx, m *gensignModel, h *types.Named, gen *ssa.Function) {
 		if ka, ok := vs[0].(*ssa.Alloc); ok {
 			ks := FieldStores(gen, ka)
 			if ids := ks["Identifier"]; len(ids) == 1 {
-				if ex, ok := ids[0].(*ssa.Extract); ok && ex.Index == 0 {
+				if ex, ok := w.canon(gen, ids[0]).(*ssa.Extract); ok && ex.Index == 0 {
 					if l, ok := ex.Tuple.(*ssa.Lookup); ok && l.CommaOk {
 						if strings.HasSuffix(w.Expr(l.X), ".KeyIdentifiers") && strings.HasPrefix(w.Expr(l.X), "p0.") && w.Expr(l.Index) == "p1.Attrs.CAPubKeyAlgo" {
 							okK, lk = true, l
@@ -208,6 +213,14 @@ func checkGenerate(c *Ctx, m *gensignModel, h *types.Named, gen *ssa.Function) {
 	// PublicKey
 	var agentKeyCall *ssa.Call
 	okPK := false
+	for _, call := range callsIn(gen) {
+		// the repository constructor of the agent key is a named primitive of this rule
+		if cv, ok := call.(*ssa.Call); ok {
+			if callee := w.helperOf(cv); callee != nil && callee.Signature.Results().Len() == 2 {
+				w.Opaque(callee)
+			}
+		}
+	}
 	if vs := rf["PublicKey"]; len(vs) == 1 {
 		ex := w.Expr(vs[0])
 		if strings.HasPrefix(ex, "conv<string>(call<golang.org/x/crypto/ssh.MarshalAuthorizedKey>(call<(*"+RepoMod+"/agent/ssh.AgentKey).PublicKey>(") {
@@ -237,7 +250,7 @@ func checkGenerate(c *Ctx, m *gensignModel, h *types.Named, gen *ssa.Function) {
 			}
 		}
 	}
-	c.Check(okId, "R1.csr", hn+"|KeyId", w.Pos(req.Pos()), "kid.Marshal() of the same KeyID, error returned", "the request's KeyId is not the checked encoding of the KeyID built above")
+	c.Check(okId, "R1.csr", hn+"|KeyId", w.Pos(req.Pos()), "kid.Marshal() of the same KeyID, error returned", "the request's KeyId is not the checked encoding of the KeyID built above: "+exprList(w, rf["KeyId"]))
 	for fld := range rf {
 		switch fld {
 		case "Principals", "Validity", "Extensions", "KeyMeta", "PublicKey", "KeyId":
@@ -253,7 +266,7 @@ func checkGenerate(c *Ctx, m *gensignModel, h *types.Named, gen *ssa.Function) {
 			if !ok {
 				continue
 			}
-			if len(cv.Call.Args) == 2 && cv.Call.Args[1] == ssa.Value(req) && cv.Call.Args[0] == extractOf(agentKeyCall, 0) {
+			if len(cv.Call.Args) == 2 && w.canon(gen, cv.Call.Args[1]) == ssa.Value(req) && cv.Call.Args[0] == extractOf(agentKeyCall, 0) {
 				attached = true
 			}
 		}
